@@ -18,6 +18,7 @@ class Built:
         self.port = None      # (attribute name, role) role: "target" | "initiator"
         self.submodules = []
         self.extend = None    # optional: a legal further configuration call (returns a summary)
+        self.port_params = None   # the constructor parameters the port must have, when given explicitly
 
     def add_component_signature(self):
         from amaranth.lib.wiring import In
@@ -141,25 +142,31 @@ def gen_mux(rng):
 def build_mux(cfg):
     from amaranth_soc import csr
     from worlds.mux import build_map
-    mm, placed, _ = build_map(cfg)
-    dut = hw.construct(csr.Multiplexer, mm, shadow_overlaps=cfg["ov"])
+    made = []
+    mm, placed, _ = build_map(cfg, lambda m_: made.append(
+        hw.construct(csr.Multiplexer, m_, shadow_overlaps=cfg["ov"])))
+    dut = made[0]
     b = Built(dut, "csr.Multiplexer")
     b.add_component_signature()
     for i, (reg, s, e, w, acc) in enumerate(placed):
         b.add_interface(reg.element, f"r{i}", dut_is_target=False)
     b.maps.append(mm)
     b.port = ("bus", "target")
+    b.port_params = {"addr_width": cfg["aw"], "data_width": cfg["dw"]}
     return b
 
 
 def gen_csrdec(rng):
-    aw = rng.range(2, 8)
+    aw = rng.range(2, 8) if not rng.chance(0.15) else rng.range(1, 3)
     subs = []
     for i in range(rng.range(0, 4)):
+        if aw < 2:
+            break
         saw = rng.range(1, aw - 1)
         subs.append({"aw": saw, "name": None if rng.chance(0.4) else f"w{i}",
                      "addr": ((rng.below(1 << aw) >> saw) << saw) if rng.chance(0.3) else None})
-    return {"aw": aw, "dw": rng.choice([4, 8, 16, 32]), "al": rng.choice([0, 0, 1, 2]),
+    return {"aw": aw, "dw": rng.choice([4, 8, 16, 32]),
+            "al": rng.choice([0, 0, 1, 2]) if not rng.chance(0.15) else rng.range(3, 6),
             "subs": subs}
 
 
@@ -182,6 +189,7 @@ def build_csrdec(cfg):
         b.add_interface(sb, f"s{i}", dut_is_target=False)
     b.maps.append(dut.bus.memory_map)
     b.port = ("bus", "target")
+    b.port_params = {"addr_width": cfg["aw"], "data_width": cfg["dw"]}
 
     def extend():
         sb = csr.Interface(addr_width=1, data_width=cfg["dw"], path=("late",))
@@ -305,8 +313,10 @@ def build_wbdec(cfg):
     from amaranth_soc import wishbone
     from amaranth_soc.memory import MemoryMap
     from worlds.wbdec import log2
+    spell = (lambda fs: {wishbone.Feature(f) for f in fs}) if cfg.get("feats_as") == "enum" \
+        else (lambda fs: set(fs))
     dut = hw.construct(wishbone.Decoder, addr_width=cfg["aw"], data_width=cfg["dw"],
-                       granularity=cfg["g"], features=set(cfg["feats"]), alignment=cfg["al"])
+                       granularity=cfg["g"], features=spell(cfg["feats"]), alignment=cfg["al"])
     b = Built(dut, "wishbone.Decoder")
     b.add_component_signature()
     for i, sc in enumerate(cfg["subs"]):
@@ -324,6 +334,8 @@ def build_wbdec(cfg):
         b.add_interface(sb, f"s{i}", dut_is_target=False)
     b.maps.append(dut.bus.memory_map)
     b.port = ("bus", "target")
+    b.port_params = {"addr_width": cfg["aw"], "data_width": cfg["dw"], "granularity": cfg["g"],
+                     "features": set(cfg["feats"])}
 
     def extend():
         sb = wishbone.Interface(addr_width=0, data_width=cfg["dw"], granularity=cfg["g"],
@@ -342,8 +354,10 @@ def gen_arbiter(rng):
 
 def build_arbiter(cfg):
     from amaranth_soc import wishbone
+    spell = (lambda fs: {wishbone.Feature(f) for f in fs}) if cfg.get("feats_as") == "enum" \
+        else (lambda fs: set(fs))
     dut = hw.construct(wishbone.Arbiter, addr_width=cfg["aw"], data_width=cfg["dw"],
-                       granularity=cfg["g"], features=set(cfg["feats"]))
+                       granularity=cfg["g"], features=spell(cfg["feats"]))
     b = Built(dut, "wishbone.Arbiter")
     b.add_component_signature()
     for i, ic in enumerate(cfg["intrs"]):
@@ -352,6 +366,8 @@ def build_arbiter(cfg):
         hw.construct(dut.add, ib)
         b.add_interface(ib, f"i{i}", dut_is_target=True)
     b.port = ("bus", "initiator")
+    b.port_params = {"addr_width": cfg["aw"], "data_width": cfg["dw"], "granularity": cfg["g"],
+                     "features": set(cfg["feats"])}
 
     def extend():
         ib = wishbone.Interface(addr_width=cfg["aw"], data_width=cfg["dw"], granularity=cfg["dw"],
@@ -393,6 +409,7 @@ def build_gpio(cfg):
     b.add_component_signature()
     b.maps.append(dut.bus.memory_map)
     b.port = ("bus", "target")
+    b.port_params = {"addr_width": cfg["aw"], "data_width": cfg["dw"]}
     return b
 
 
